@@ -8,6 +8,10 @@ What the interleaving model (Model/Threads.lean) hard-wires and this translator 
     read relative to that block is the model's second variant (`seqInLock`: the block is the first statement
     of the function and nothing outside it mentions `next_sequence_number` / `_inc_sequence_number` -
     fixes/C04-2.diff; as shipped both happen before the block);
+  * that block is on ONE lock object, whatever target the request addresses (`oneLock`: the context expression is the
+    attribute `self.transaction_lock` itself, there is no other `with` in the function, the attribute is assigned once
+    - `threading.Lock()` in `__init__` - and the class creates no other lock; `with self._lock_for(target):` or a lock
+    per thread / per call is a different program: threads addressing different targets would not be serialised);
   * every socket access of a request (`_send_ipmi_msg`, `_receive_ipmi_msg`, `self._q.get`) is lexically
     inside that block, and nothing is put back into `self._q`;
   * the session wrapper is built inside `_send_ipmi_msg` (`IpmiMsg(self._session)` … `.pack(...)`), i.e.
@@ -106,6 +110,41 @@ def analyse():
     withs = [n for n in ast.walk(sar) if isinstance(n, ast.With)
              and any(_is_self_attr(i.context_expr, 'transaction_lock') for i in n.items)]
     f['lockBlocks'] = len(withs)
+    # ONE lock object for every caller and every target: the block's context expression is the attribute itself (not a
+    # call such as `self._lock_for(target)`, not a local), `_send_and_receive` has no other `with`, the attribute is
+    # assigned once in the class (`self.transaction_lock = threading.Lock()` in __init__) and the class creates no
+    # other lock
+    all_withs = [n for n in ast.walk(sar) if isinstance(n, ast.With)]
+    assigns = [(m.name, n) for m in rmcp.body if isinstance(m, ast.FunctionDef) for n in ast.walk(m)
+               if isinstance(n, (ast.Assign, ast.AugAssign, ast.AnnAssign))
+               and any(_is_self_attr(t, 'transaction_lock') or (isinstance(t, (ast.Tuple, ast.List)) and any(
+                   _is_self_attr(e, 'transaction_lock') for e in t.elts))
+                   for t in (n.targets if isinstance(n, ast.Assign) else [n.target]))]
+
+    def is_lock_ctor(n):
+        return isinstance(n, ast.Call) and (
+            (isinstance(n.func, ast.Attribute) and n.func.attr in ('Lock', 'RLock', 'Semaphore', 'BoundedSemaphore', 'Condition'))
+            or (isinstance(n.func, ast.Name) and n.func.id in ('Lock', 'RLock', 'Semaphore', 'BoundedSemaphore', 'Condition')))
+    ctors = [n for n in ast.walk(rmcp) if is_lock_ctor(n)]
+    lock_rebound = any(isinstance(n, (ast.Delete,)) and any(_is_self_attr(t, 'transaction_lock') for t in n.targets)
+                       for n in ast.walk(rmcp)) or any(
+        isinstance(n, ast.Call) and isinstance(n.func, ast.Name) and n.func.id in ('setattr', 'delattr')
+        and len(n.args) >= 2 and isinstance(n.args[1], ast.Constant) and n.args[1].value == 'transaction_lock'
+        for n in ast.walk(rmcp)) or any(
+        isinstance(m, ast.FunctionDef) and m.name in ('transaction_lock', '__getattr__', '__getattribute__')
+        for m in rmcp.body)
+    f['oneLock'] = bool(
+        len(withs) == 1 and len(all_withs) == 1 and len(withs[0].items) == 1
+        and len(assigns) == 1 and assigns[0][0] == '__init__' and isinstance(assigns[0][1], ast.Assign)
+        and len(assigns[0][1].targets) == 1 and is_lock_ctor(assigns[0][1].value)
+        and isinstance(assigns[0][1].value.func, ast.Attribute) and assigns[0][1].value.func.attr == 'Lock'
+        and _is_name(assigns[0][1].value.func.value, 'threading') and not assigns[0][1].value.args
+        and len(ctors) == 1 and not lock_rebound)
+    others = [ast.unparse(i.context_expr) for n in all_withs for i in n.items
+              if not _is_self_attr(i.context_expr, 'transaction_lock')]
+    f['lockText'] = ('self.transaction_lock, the one threading.Lock() of the class' if f['oneLock'] else
+                     'with-blocks on %s; %d lock object(s) created in class Rmcp; transaction_lock assigned in %s' % (
+                         others or ['self.transaction_lock'], len(ctors), [a[0] for a in assigns]))
     # statements before the lock block (top level of the function body)
     top = sar.body
     idx = next((i for i, s in enumerate(top) if s in withs), None)
@@ -477,9 +516,9 @@ open PyIpmi.Threads
 
 /-- keep-alive callable installed by establish_session: %s;  stopper returned by call_repeatedly: %s;
 mentions of next_sequence_number / _inc_sequence_number outside the lock block of _send_and_receive: %d;
-session wrapper built: %s -/
+session wrapper built: %s;  lock: %s -/
 def shape : Shape :=
-  { lockBlocks := %d, incFirst := %s, seqInLock := %s, incCalls := %d, ioOutsideLock := %d, sendsInLock := %d, recvsInLock := %d,
+  { lockBlocks := %d, oneLock := %s, incFirst := %s, seqInLock := %s, incCalls := %d, ioOutsideLock := %d, sendsInLock := %d, recvsInLock := %d,
     qGetInLock := %d, qPut := %d, packInSar := %d, packInSend := %d, sendBuildsIpmiMsg := %s,
     retryLoop := %s, packBeforeLoop := %d, packPerAttempt := %s, packIncs := %d,
     packIncGuardedByActivated := %s, seqAdd := %d, seqMod := %d, keepAliveLocked := %s, rawLocked := %s,
@@ -488,7 +527,7 @@ def shape : Shape :=
     closeStopsFirst := %s, closeChecksActivated := %s, closeLocked := %s, closeDeactivatesLast := %s }
 
 end PyIpmi.Gen.Threads
-''' % (f['keepAliveName'], f['stopperText'], f['seqOutsideLock'], f['packText'], f['lockBlocks'], _b(f['incFirst']), _b(f['seqInLock']),
+''' % (f['keepAliveName'], f['stopperText'], f['seqOutsideLock'], f['packText'], f['lockText'].replace('-/', '- /'), f['lockBlocks'], _b(f['oneLock']), _b(f['incFirst']), _b(f['seqInLock']),
        f['incCalls'], f['ioOutsideLock'], f['sendsInLock'],
        f['recvsInLock'], f['qGetInLock'], f['qPut'], f['packInSar'], f['packInSend'], _b(f['sendBuildsIpmiMsg']),
        _b(f['retryLoop']), f['packBeforeLoop'], _b(f['packPerAttempt']), f['packIncs'], _b(f['packIncGuardedByActivated']), int(f['seqAdd']), int(f['seqMod']), _b(f['keepAliveLocked']),
